@@ -828,7 +828,8 @@ LinearProblem linear_problem(Setup& s, const Case& c, const std::string& m)
     else if (m == "lltsa")
     {
         Neighbors nb = neighbours_of(s, c, true);
-        M = dense(tangent_weight_matrix(s.idx.begin(), s.idx.end(), nb, ck, s.td, c.d("nshift", 1e-9)));
+        // the alignment matrix proper: the diagonal regularisation shift only adds shift * B to the pencil (same eigenvectors)
+        M = dense(tangent_weight_matrix(s.idx.begin(), s.idx.end(), nb, ck, s.td, c.d("nshift", 1e-9))) - c.d("nshift", 1e-9) * Mat::Identity(N, N);
         Bp = Mat::Identity(N, N) - Mat::Constant(N, N, 1.0 / N);
     }
     else
